@@ -329,6 +329,66 @@ pub fn cardinality_sets(tier: &str) -> Vec<Vec<u64>> {
     out
 }
 
+/// The whole sphere minus one cell (or minus two cells), written in its canonical form: at every level
+/// from the removed cell up to the base cells, the siblings of the removed cell's ancestor. An antichain
+/// without a complete sibling group, so compact must return exactly this set; a "nearly everything"
+/// shortcut (by count, by area, by bit mask) takes it for the world.
+pub fn complement_sets(tier: &str) -> Vec<Vec<u64>> {
+    let mut out = Vec::new();
+    let chains = crate::enumerate::fam_chains(2, 29);
+    let step = if tier == "quick" { 61 } else { 7 };
+    let complement = |c: u64| -> Vec<u64> {
+        let mut v = Vec::new();
+        let mut x = c;
+        while let Some(p) = rc::parent(x) {
+            v.extend(rc::children(p).into_iter().filter(|&s| s != x));
+            x = p;
+        }
+        v.sort_unstable();
+        v
+    };
+    for ch in chains.iter().step_by(step) {
+        for &c in ch.iter() {
+            let r = rc::resolution(c).unwrap();
+            if tier == "quick" && !(r <= 3 || r % 3 == 0 || r >= 28) {
+                continue;
+            }
+            out.push(complement(c));
+        }
+        // minus two cells: a deep one and a coarse one on another face
+        let deep = *ch.last().unwrap();
+        let other = rc::children(rc::all_cells(0)[((rc::decode(deep).unwrap().face + 5) % 12) as usize])[2];
+        let mut v: Vec<u64> = complement(deep).into_iter().filter(|&x| x != other && !rc::is_descendant_or_self(other, x)).collect();
+        // re-describe the face that contained `other` without it
+        let of = rc::parent(other).unwrap();
+        if !v.contains(&of) {
+            // `of` was not in the set (it is an ancestor of deep): nothing to do
+        } else {
+            v.retain(|&x| x != of);
+            v.extend(rc::children(of).into_iter().filter(|&x| x != other));
+        }
+        v.sort_unstable();
+        v.dedup();
+        if !rc::has_overlap(&v) {
+            out.push(v);
+        }
+    }
+    out
+}
+
+pub fn compact_complements(prop: u8, tier: &str) -> (u64, Vec<Viol>) {
+    let sets = complement_sets(tier);
+    let n = sets.len() as u64;
+    let v: Vec<Viol> = sets
+        .par_iter()
+        .flat_map(|s| {
+            let v = if prop == 8 { oracle_c08(s, false) } else { oracle_c10(s) };
+            v.into_iter().take(1).collect::<Vec<_>>()
+        })
+        .collect();
+    (n, v.into_iter().take(8).collect())
+}
+
 pub fn compact_cardinality(tier: &str) -> (u64, Vec<Viol>) {
     let sets = cardinality_sets(tier);
     let n = sets.len() as u64;
